@@ -43,6 +43,8 @@ def run_tlc(module, cfg, workdir, tag, env_extra=None, workers=1, xmx="2g", time
     shutil.rmtree(meta, ignore_errors=True)
     os.makedirs(meta, exist_ok=True)
     jopts = ["-Xss512m", "-Xmx" + xmx, "-XX:+UseParallelGC"]
+    if workers == 1:
+        jopts.append("-XX:ParallelGCThreads=2")   # 16 single-worker JVMs run side by side
     if dfs:
         jopts.append("-Dtlc2.tool.queue.IStateQueue=StateDeque")
     cmd = ["java"] + jopts + ["-cp", JAR, "tlc2.TLC", "-workers", str(workers), "-metadir", meta, "-cleanup",
